@@ -1,6 +1,8 @@
 package vm
 
 import (
+	"bytes"
+	"encoding/json"
 	"fmt"
 	"math/big"
 
@@ -29,6 +31,24 @@ type ScriptV1 struct {
 	Vars map[string]any `json:"vars"`
 }
 
+// UnmarshalJSON decodes numbers as json.Number, so that a monetary variable
+// whose amount is given as a JSON number keeps every digit.
+func (s *ScriptV1) UnmarshalJSON(data []byte) error {
+	type aux struct {
+		Script
+		Vars map[string]any `json:"vars"`
+	}
+	x := aux{}
+	dec := json.NewDecoder(bytes.NewReader(data))
+	dec.UseNumber()
+	if err := dec.Decode(&x); err != nil {
+		return err
+	}
+	s.Script = x.Script
+	s.Vars = x.Vars
+	return nil
+}
+
 func (s ScriptV1) ToCore() Script {
 	s.Script.Vars = map[string]string{}
 	for k, v := range s.Vars {
@@ -39,8 +59,23 @@ func (s ScriptV1) ToCore() Script {
 			switch amount := v["amount"].(type) {
 			case string:
 				s.Script.Vars[k] = fmt.Sprintf("%s %s", v["asset"], amount)
+			case json.Number:
+				if i, ok := new(big.Int).SetString(amount.String(), 10); ok {
+					s.Script.Vars[k] = fmt.Sprintf("%s %s", v["asset"], i)
+				} else {
+					f, _ := amount.Float64()
+					s.Script.Vars[k] = fmt.Sprintf("%s %d", v["asset"], int(f))
+				}
 			case float64:
 				s.Script.Vars[k] = fmt.Sprintf("%s %d", v["asset"], int(amount))
+			}
+		case json.Number:
+			if _, ok := new(big.Int).SetString(v.String(), 10); ok {
+				s.Script.Vars[k] = v.String()
+			} else if f, err := v.Float64(); err == nil {
+				s.Script.Vars[k] = fmt.Sprint(f)
+			} else {
+				s.Script.Vars[k] = v.String()
 			}
 		default:
 			s.Script.Vars[k] = fmt.Sprint(v)
